@@ -21,6 +21,13 @@ def scenarios(quick):
                         out.append(scenario(st, fns, [start(1, 0, asyn), env("CtxCancel", ct, 1)]))
                     if asyn:
                         out.append(scenario(st, fns, [start(1, 0, True), env("AsyncCancel", 2, 1)]))
+    # executions that start with an already cancelled context (timers armed for nothing must be released)
+    for st in ([to(3)], [retry(1, dly=1), to(2)], [hg(1, 2), to(2)], [to(2), bh("b", 1, wait=3)], [fb(), to(2), retry(1, dly=1)]):
+        for coop in (True, False):
+            s0 = start(1, 0, False); s0["id"] = "precanceled"
+            s1 = start(1, 0, True); s1["id"] = "precanceled"
+            out.append(scenario(st, [[fn(1, "R1", None, coop)] * 3], [s0]))
+            out.append(scenario(st, [[fn(1, "R1", None, coop)] * 3], [s1]))
     return out
 
 
@@ -28,7 +35,7 @@ def run(ctx):
     quick = ctx.tier == "quick"
     scs = scenarios(quick)
     if quick:
-        scs = scs[ctx.seed % 2::2]
+        scs = scs[ctx.seed % 2::2] + scs[-20:]
     p_c07.run_family(ctx, "lk", scs)
     import p_c18
     p_c18.run_http(ctx, only_leaks=True)
